@@ -187,9 +187,15 @@ func main() {
 		all = sel
 		partialRun = true
 	}
+	cfg.noRetry = map[string]bool{}
+	for _, k := range loadKnown(*verifDir) {
+		if k.Status == "known" {
+			cfg.noRetry[k.Obligation] = true
+		}
+	}
 	dischargeAll(p, all, cfg)
 	if *verbose {
-		fmt.Printf("vcgen %.1fs, solving %.1fs\n", genSecs, time.Since(start).Seconds()-loadSecs-genSecs)
+		fmt.Printf("vcgen %.1fs, solving %.1fs (of which %.1fs sequential query construction)\n", genSecs, time.Since(start).Seconds()-loadSecs-genSecs, buildSecs)
 	}
 	rep.Obls = all
 	rep.finish(*out, start, *verbose)
@@ -317,7 +323,7 @@ func (r *Report) finish(out string, start time.Time, verbose bool) {
 			failed = append(failed, o)
 		}
 		if verbose {
-			fmt.Printf("  %-8s %-10s %6.2fs %s\n", o.Verdict, o.Solver, o.Secs, o.Name)
+			fmt.Printf("  %-8s %-10s %6.2fs wall=%.1fs %s\n", o.Verdict, o.Solver, o.Secs, o.Wall, o.Name)
 		}
 	}
 	// samples: a spread of obligations
